@@ -273,7 +273,8 @@ type verifStreamConn struct {
 	eofWithData         bool           // the last bytes of the script come together with the end-of-stream error
 	bulk                int            // after the script: this many more bytes arrive (content irrelevant)
 	onRead              func(call int) // optional hook run at the start of each Read
-	glog                *[]string      // optional cross-connection event log
+	deadlineUnsupported bool
+	glog                *[]string // optional cross-connection event log
 }
 
 func (c *verifStreamConn) ev(name string) {
@@ -388,6 +389,9 @@ func (c *verifStreamConn) SetDeadline(t time.Time) error {
 	return nil
 }
 func (c *verifStreamConn) SetReadDeadline(t time.Time) error {
+	if c.deadlineUnsupported {
+		return errVerifFault // a transport without deadlines
+	}
 	c.ev("SetReadDeadline")
 	c.deadlines = append(c.deadlines, t)
 	return nil
